@@ -29,7 +29,7 @@ checks = {
    "For the shortest history of every state of the C01 space up to the base depth, and of a second space with API operations and background steps (mnemonic import, single rescan batches, removal call and removal run, NewAddress, restart), the process is stopped before each wallet-database commit in turn; the wallet is restarted on the same database through the real start-up path (goroutines until idle), must resume unfinished background work by itself, end with every wallet ready or gone, and report the reference ledger of the node's final chain.",
    "§5 C06"),
  "C07": (MC, "histbfs", "explicit-state BFS over import-call / single-rescan-batch / node-event / delivery / restart histories on the real implementation",
-   "Every history of importing a wallet whose history is already on chain (gap limit 3, payments to key-chain indexes 0/2/4), single rescan batches of the real asyncImport with the worker's re-queue decision modelled from their results, blocks paying/spending it, reorganisations, deliveries and a restart up to the stated depth, plus a pass over 1003-block chains (rescan spans batches) and a pass that starts after the first batch of a 1000-block rescan and explores reorganisations reaching below the rescan cursor; refusal to select/remove while importing; after completion every wallet is ready, every address with history reachable under the gap rule (independent derivation) is held, and the ledger equals the reference ledger.",
+   "Every history of importing a wallet whose history is already on chain (gap limit 3, payments to key-chain indexes 0/2/4), single rescan batches of the real asyncImport with the worker's re-queue decision modelled from their results, blocks paying/spending it, reorganisations, deliveries and a restart up to the stated depth, plus a pass over 1003-block chains (rescan spans batches) and a pass that starts after the first batch of a 1000-block rescan and explores reorganisations reaching below the rescan cursor, and a pass with one height per rescan batch over short chains (events between any two batches); refusal to select/remove while importing; after completion every wallet is ready, every address with history reachable under the gap rule (independent derivation) is held, and the ledger equals the reference ledger.",
    "§5 C07"),
  "C08": (MC, "histbfs", "explicit-state BFS over two-wallet histories with removal call / removal run / restart / re-import, raw residue scan and survivor ledger oracle",
    "Every history of two wallets sharing transactions, the removal API call, the background removal run, restarts between them, reorganisations and re-import up to the stated depth, a pass in which the removed wallet holds pending records (unconfirmed deposits and payments), and a pass that stops before every commit inside the removal and restarts through the real start-up path; wrong passphrases are refused, after completion no raw database record mentions the removed wallet's id, script hashes or addresses, and the surviving wallet's ledger equals the reference.",
@@ -56,7 +56,7 @@ checks = {
    "For 24 scenarios (4 queries x 6 writers; 17 more in the thorough tier) every placement of the follower's 1-4 block commits (connects, pay+spend, reorgs) among the database reads of WalletBalance, AddressBalance, GetUtxo and AutoCreateRawTransaction is executed on the real code; the answer must equal the answer of the same call run alone at a block boundary inside its window. The data-race clause is covered only by a sampling race-detector pass (auxiliary, not exhaustive).",
    "§5 C17"),
  "C20": (MC, "schedexplore", "stateless DFS with iterative preemption bounding over a cooperative controlled scheduler on the instrumented real follower/worker/stop code",
-   "The real NtfnsHandler (handle, worker, suspend/resume, task queue, Stop) is rebuilt with every sync primitive, goroutine start and channel operation routed through a controlled scheduler (source overlay generated from the current tree). For 11 scenarios (import or removal started by an API thread or resumed from a restart, 0-2 tips announced by a node thread, with and without a concurrent stop request) every schedule with at most the stated number of preemptions runs to completion on a fresh real wallet; each execution is checked for deadlock, abnormal thread end, livelock, stop returning with the database closed exactly once, and (without stop) for every announced tip processed, the accepted task finished and the ledger equal to the reference.",
+   "The real NtfnsHandler (handle, worker, suspend/resume, task queue, Stop) is rebuilt with every sync primitive, goroutine start and channel operation routed through a controlled scheduler (source overlay generated from the current tree). For 17 scenarios (import or removal started by an API thread or resumed from a restart, 0-2 tips announced by a node thread, with and without a concurrent stop request; imports of one or of several rescan batches - batch size scaled through a source overlay - and an API thread that submits three more tasks while a multi-batch import is running) every schedule with at most the stated number of preemptions runs to completion on a fresh real wallet; each execution is checked for deadlock, abnormal thread end, livelock, stop returning with the database closed exactly once, and (without stop) for every announced tip processed, every accepted task finished (no wallet left importing or marked for removal) and the ledger equal to the reference.",
    "§5 C20"),
  "C13": (MC, "enum", "bounded-exhaustive input enumeration against an independent BIP-39 reference",
    "Input-bounded model checking: every member of the described entropy / word-sequence families is run through the real mnemonic code and compared with an independent reference validated against BIP-39 vectors.", "§5 C13"),
